@@ -149,7 +149,7 @@ def rule_g3_g6(repo, col):
                 reuse_src = norm(reuse[0].value) if reuse else "True (default)"
                 is_disj = has(p, "nodetype == 'disj'", True)
                 mutable = has(p, "readonly", False)
-                if is_disj and mutable and has(p, "update is not None", False):
+                if is_disj and mutable and has(p, "update is None", True):
                     if reuse_src != "False":
                         fail_once("G4", call, "a mutable disjunction (readonly=False) is added with reuse=%s: it can be hash-consed with an existing node of the same content, "
                                   "so a later add_disjunct on one key silently changes the other" % reuse_src, "mutable disj added with reuse != False")
